@@ -13,24 +13,34 @@
 (* changes the identity of an existing object; NameKept that a conditioned *)
 (* copy keeps the random-variable name of its original.                    *)
 (*                                                                         *)
+(* Objects N+2 .. N+1+K are K stand-alone conditional distributions of the *)
+(* COMPOSITE families (a distribution wrapping an inner Gaussian:          *)
+(* regularized / constrained Gaussians, log-normal): CondFactor conditions *)
+(* one on its parameter (a copy), MutateCopy is the user assigning a       *)
+(* parameter of a derived COPY - which changes that copy and nothing else. *)
+(*                                                                         *)
 (* Named deviations (FALSE in the deciding configuration):                 *)
 (*   DevConstOnOriginal - reduction adds the constants of the evaluated    *)
 (*        factors to the ORIGINAL factor object instead of a copy          *)
 (*   DevFDOnOriginal    - enabling finite differences on a copy switches   *)
 (*        them on in the original                                          *)
+(*   DevSharedInner     - a copy shares its inner (wrapped) distribution   *)
+(*        with its original: assigning a parameter of the copy changes the *)
+(*        original as well                                                 *)
 (***************************************************************************)
 EXTENDS Integers, Sequences, FiniteSets, TLC, Json
 
-CONSTANTS N, MaxObjs, MaxDepth, Emit, DevConstOnOriginal, DevFDOnOriginal
+CONSTANTS N, K, MaxObjs, MaxDepth, Emit, DevConstOnOriginal, DevFDOnOriginal, DevSharedInner
 
 V == 1..N
 VARIABLES objs,   \* sequence of object identities
           hist    \* sequence of actions <<name, object, argument>>
 vars == <<objs, hist>>
 
-Obj(kind, fixed, origin, name) == [kind |-> kind, fixed |-> fixed, const |-> {}, fd |-> FALSE, name |-> name, origin |-> origin]
+Obj(kind, fixed, origin, name) == [kind |-> kind, fixed |-> fixed, const |-> {}, fd |-> FALSE, name |-> name, origin |-> origin, ver |-> 0]
 
 Init == /\ objs = <<Obj("joint", {}, 0, 0)>> \o [v \in 1..N |-> Obj("factor", {}, 0, v)]
+                  \o [c \in 1..K |-> Obj("composite", {}, 0, N + c)]
         /\ hist = <<>>
 
 Ids == 1..Len(objs)
@@ -58,8 +68,24 @@ ToLikelihood(o) ==
     /\ objs' = Append(objs, Obj("lik", {objs[o].name}, o, objs[o].name))
     /\ hist' = Append(hist, <<"to_likelihood", o, <<>>>>)
 
+\* a stand-alone conditional distribution conditioned on its parameter: a new object, the original untouched
+CondFactor(o) ==
+    /\ Room /\ objs[o].kind = "composite" /\ objs[o].fixed = {}
+    /\ objs' = Append(objs, [Obj("composite", {0}, o, objs[o].name) EXCEPT !.ver = 0])
+    /\ hist' = Append(hist, <<"cond_factor", o, <<>>>>)
+
+\* the user assigns a parameter of a DERIVED object (never of an original): only that object changes
+MutateCopy(o) ==
+    /\ Len(hist) < MaxDepth
+    /\ objs[o].origin # 0 /\ objs[o].kind \in {"factor", "composite"}
+    /\ objs' = [i \in 1..Len(objs) |->
+                  IF i = o THEN [objs[i] EXCEPT !.ver = @ + 1]
+                  ELSE IF DevSharedInner /\ i = objs[o].origin THEN [objs[i] EXCEPT !.ver = @ + 1]
+                  ELSE objs[i]]
+    /\ hist' = Append(hist, <<"mutate_copy", o, <<>>>>)
+
 CopyEnableFD(o) ==
-    /\ Room /\ objs[o].kind \in {"factor", "cond"}
+    /\ Room /\ objs[o].kind \in {"factor", "cond", "composite"}
     /\ objs' = [i \in 1..(Len(objs) + 1) |->
                   IF i = Len(objs) + 1 THEN [objs[o] EXCEPT !.fd = TRUE, !.origin = o]
                   ELSE IF i = o /\ DevFDOnOriginal THEN [objs[i] EXCEPT !.fd = TRUE]
@@ -76,25 +102,26 @@ Observe(a, o) ==
     /\ Len(hist) < MaxDepth
     /\ CASE a = "logd" -> TRUE
          [] a = "gradient" -> objs[o].kind # "model"
-         [] a = "sample" -> objs[o].kind = "factor"
+         [] a = "sample" -> objs[o].kind \in {"factor", "composite"}
          [] a = "run_sampler" -> objs[o].kind = "cond" /\ Cardinality(Free(o)) = 1
          [] a = "gibbs" -> JointLike(o) /\ Cardinality(Free(o)) >= 2
     /\ hist' = Append(hist, <<a, o, <<>>>>)
     /\ UNCHANGED objs
 
 Next == \/ \E o \in Ids, S \in SUBSET V : Condition(o, S)
-        \/ \E o \in Ids : ToLikelihood(o) \/ CopyEnableFD(o) \/ ApplyModel(o)
+        \/ \E o \in Ids : ToLikelihood(o) \/ CopyEnableFD(o) \/ ApplyModel(o) \/ CondFactor(o) \/ MutateCopy(o)
         \/ \E o \in Ids, a \in {"logd", "gradient", "sample", "run_sampler", "gibbs"} : Observe(a, o)
 Spec == Init /\ [][Next]_vars
 
 \* ---- properties ------------------------------------------------------------------------
 \* nothing but creation: the identity of every existing object is unchanged by every action
-Frame == [][\A i \in 1..Len(objs) : objs'[i] = objs[i]]_vars
+Frame == [][\A i \in 1..Len(objs) :
+              (hist'[Len(hist')][1] = "mutate_copy" /\ hist'[Len(hist')][2] = i) \/ objs'[i] = objs[i]]_vars
 \* a conditioned / derived copy keeps the name of its original
 NameKept == \A i \in Ids : (objs[i].origin # 0 /\ objs[i].kind \in {"lik", "model"}) => objs[i].name = objs[objs[i].origin].name
 \* originals never carry constants
-OriginalsClean == \A i \in 1..(N + 1) : objs[i].const = {} /\ objs[i].fd = FALSE
+OriginalsClean == \A i \in 1..(N + 1 + K) : objs[i].const = {} /\ objs[i].fd = FALSE /\ objs[i].ver = 0
 
 Emitted == (Emit /\ Len(hist) = MaxDepth) =>
-             PrintT("@@CASE " \o ToJson([kind |-> "objhist", n |-> N, hist |-> hist]) \o " @@END")
+             PrintT("@@CASE " \o ToJson([kind |-> "objhist", n |-> N, k |-> K, hist |-> hist]) \o " @@END")
 =============================================================================
